@@ -36,3 +36,42 @@ def stripPad (s : List UInt8) : List UInt8 := (s.reverse.dropWhile (· == pad)).
 def beforePad (s : List UInt8) : List UInt8 := s.takeWhile (· != pad)
 
 end PV.Spec.Base64
+
+namespace PV.Spec.Base64
+
+/-- index of a character in the alphabet (search, independent of any inverse table). -/
+def alphaIndex (b : UInt8) : Option Nat := (List.range 64).find? (fun i => alpha i == b)
+
+/-- reference decoder for canonical text: groups of 4 symbols → 3 bytes; a final group of
+    2 or 3 symbols → 1 or 2 bytes.  `none` if a symbol is foreign or a lone symbol remains. -/
+def refDecode : List UInt8 → Option (List UInt8)
+  | a :: b :: c :: d :: r =>
+    match alphaIndex a, alphaIndex b, alphaIndex c, alphaIndex d, refDecode r with
+    | some a, some b, some c, some d, some rest =>
+      let n := a * 262144 + b * 4096 + c * 64 + d
+      some (UInt8.ofNat (n / 65536) :: UInt8.ofNat (n / 256 % 256) :: UInt8.ofNat (n % 256) :: rest)
+    | _, _, _, _, _ => none
+  | [a, b, c] =>
+    match alphaIndex a, alphaIndex b, alphaIndex c with
+    | some a, some b, some c =>
+      let n := a * 262144 + b * 4096 + c * 64
+      some [UInt8.ofNat (n / 65536), UInt8.ofNat (n / 256 % 256)]
+    | _, _, _ => none
+  | [a, b] =>
+    match alphaIndex a, alphaIndex b with
+    | some a, some b => some [UInt8.ofNat ((a * 262144 + b * 4096) / 65536)]
+    | _, _ => none
+  | [_] => none
+  | [] => some []
+
+/-- The property's verdict on one decoder answer (`none` = the decoder reported an error):
+    * a foreign byte before the first '='  ⇒ must be an error;
+    * the text is the (padded or unpadded) RFC 4648 encoding of `x` ⇒ must be `x`;
+    * anything else is not constrained by the property. -/
+def judgeDecode (s : List UInt8) (res : Option (List UInt8)) : Bool :=
+  if (beforePad s).any (fun b => !inAlphabet b) then res.isNone
+  else match refDecode (beforePad s) with
+    | some x => if rfc4648 x == s || stripPad (rfc4648 x) == s then res == some x else true
+    | none => true
+
+end PV.Spec.Base64
